@@ -67,12 +67,17 @@ def delete_sites(ctx):
     if hasattr(ctx, "_del_sites"):
         return ctx._del_sites
     out = []
+    copies = []
     for (b, bb, t, c) in r.fs_sites(lambda n: "delete" if is_fs_delete(n) else None):
-        root = r.container(b)
-        rv = r.V(root)
-        nb = bb if root.name == b.name else rv.locate(b.name, bb)
-        if nb is None:
-            rv, nb = r.V(b), bb
+        # every copy of the site: a deleting helper spliced into several callers is judged in each of them
+        found = []
+        for root in r.containers(b):
+            rv = r.V(root)
+            found += [(rv, nb) for nb in ([bb] if root.name == b.name else rv.locate_all(b.name, bb))]
+        if not found:
+            found = [(r.V(b), bb)]
+        copies += [(b, bb, t, rv, nb) for (rv, nb) in found]
+    for (b, bb, t, rv, nb) in copies:
         tv = rv.term(nb)
         api = t["callee"]["base"]
         # is the deleted path simply a parameter of the enclosing (multi-call-site) fn?
@@ -248,23 +253,34 @@ def scope(ctx):
                 cap = st
     ctx.need(cap, "construction of main's async block")
     req_names, tgt_names, dir_names = set(), set(), set()
+    req_true, req_false = set(), set()
     for nm, o in zip(cap["rv"].get("fields") or [], cap["rv"]["ops"]):
         l = operand_local(o)
         ty = mraw.locals[l]["ty"] if l is not None else ""
         at = mraw.prov.operand_atoms(o)
-        if re.search(r"Option<", ty) and any(c.endswith("ArgMatches::values_of_lossy") or c.endswith("ArgMatches::values_of") for c in atom_callres(at)) and any(a[0] == "static" and a[1].endswith("TARGETS") for a in at):
+        from_targets_arg = any(c.endswith("ArgMatches::values_of_lossy") or c.endswith("ArgMatches::values_of") for c in atom_callres(at)) and any(a[0] == "static" and a[1].endswith("TARGETS") for a in at)
+        if re.search(r"Option<", ty) and from_targets_arg:
             req_names.add(nm)
+        if ty.replace("&", "").replace("mut ", "").strip() == "bool" and from_targets_arg and l is not None:
+            # `let requested = requested_targets.is_some()` bound before the async block
+            for o_ in origins(mraw, l):
+                if o_[0] == "call" and o_[1].endswith("::is_some"):
+                    req_true.add(nm)
+                if o_[0] == "call" and o_[1].endswith("::is_none"):
+                    req_false.add(nm)
         if re.search(r"HashMap<[\w:]*TargetId, [\w:]*Target>", ty):
             tgt_names.add(nm)
         if re.search(r"(Vec|HashSet|BTreeSet)<[\w:]*PathBuf>", ty):
             dir_names.add(nm)
-    ctx.need(req_names and tgt_names and dir_names, f"captured requested names / resolved targets / project directories of main's async block (found {sorted(req_names)}, {sorted(tgt_names)}, {sorted(dir_names)})")
+    ctx.need((req_names or req_true or req_false) and tgt_names and dir_names, f"captured requested names / resolved targets / project directories of main's async block (found {sorted(req_names)}, {sorted(tgt_names)}, {sorted(dir_names)})")
     def req_test(which):
         def p(d):
             return (d[0] == "call" and d[1].endswith("::" + which) and d[2] and any(a[0] == "field" and a[2] in req_names for a in d[2][0]))
         return p
-    Gs = guard_region(ma, req_test("is_some"), True, within=Gc) | guard_region(ma, req_test("is_none"), False, within=Gc)
-    Gn = guard_region(ma, req_test("is_some"), False, within=Gc) | guard_region(ma, req_test("is_none"), True, within=Gc)
+    def flag(names):
+        return lambda d: d[0] == "field" and d[1] in names
+    Gs = guard_region(ma, req_test("is_some"), True, within=Gc) | guard_region(ma, req_test("is_none"), False, within=Gc) | guard_region(ma, flag(req_true), True, within=Gc) | guard_region(ma, flag(req_false), False, within=Gc)
+    Gn = guard_region(ma, req_test("is_some"), False, within=Gc) | guard_region(ma, req_test("is_none"), True, within=Gc) | guard_region(ma, flag(req_true), False, within=Gc) | guard_region(ma, flag(req_false), True, within=Gc)
     n = 0
     # destructive sites: deletion API sites located in main's view, and calls (in main's view) of local fns that delete
     items = []
@@ -287,6 +303,11 @@ def scope(ctx):
         else:
             ctx.check(bb in Gc and bool(set(ups) & tgt_names) and role in ("output-filtered", "output-plain"), f"main/{lab}@{role}@{bb}", [site(ma, bb)], "outputs are cleaned outside `--clean` or not for the resolved targets")
     ctx.need(n >= 3, "destructive sites in main")
+    # each part of `--clean` is there at all: without the state deletion `--clean T` would skip T; without the work-dir removal `--clean` keeps records
+    seen = {role for (bb, role, ups, lab) in items}
+    ctx.check("state" in seen, "main/forgets-state-of-requested", [ma.loc()], "`--clean <targets>` does not delete the recorded state of the resolved targets: they could be skipped instead of being rebuilt")
+    ctx.check("workdir" in seen, "main/forgets-all-state", [ma.loc()], "`--clean` without targets does not remove the work directories: recorded state survives a full clean")
+    ctx.check(bool(seen & {"output-filtered", "output-plain"}), "main/cleans-outputs", [ma.loc()], "`--clean` does not remove the declared outputs")
 
 
 @rule("C12.WORKDIR-PATH", ["C12", "C16"], """the directory removed by work-dir removal is `<project dir>/.zinoma`, never the project directory itself""", "K5", floor=1)
@@ -916,14 +937,25 @@ def canonical_dirs(ctx):
                 pidx = sorted(a[1] for a in b.prov.operand_atoms(t["args"][1], interproc=False) if a[0] == "param")
                 # judged on the callers' own code: in a view the parameter of a spliced-in callee is bound to its (canonical) argument, and everything
                 # computed from it - e.g. `dir.join(import)` - would look canonical to a flow-insensitive derivation
-                callers = [(f.bodies[c], cbb, f.bodies[c].term(cbb)) for (c, cbb) in f.cg.call_sites.get(ctx.r.fn_of(b).name, ()) if cbb is not None and f.bodies[c].term(cbb)["k"] == "call"]
-                ok = bool(pidx) and bool(callers)
-                for (cv, cbb, ct) in callers:
-                    for i in pidx:
-                        if i - 1 < len(ct["args"]):
-                            cat = cv.prov.operand_atoms(ct["args"][i - 1])
-                            if not (atom_callres(cat) & cn):
-                                ok = False
+                def canonical_at_callers(fn_body, i, depth=0):
+                    """parameter i of fn_body receives a canonicalised directory at every call site (through pass-through parameters of wrappers)"""
+                    sites_ = [(f.bodies[c], cbb, f.bodies[c].term(cbb)) for (c, cbb) in f.cg.call_sites.get(ctx.r.fn_of(fn_body).name, ()) if cbb is not None and f.bodies[c].term(cbb)["k"] == "call"]
+                    if not sites_ or depth > 4:
+                        return False
+                    for (cv, cbb, ct) in sites_:
+                        if i - 1 >= len(ct["args"]):
+                            return False
+                        cat = cv.prov.operand_atoms(ct["args"][i - 1])
+                        if atom_callres(cat) & cn:
+                            continue
+                        local = cv.prov.operand_atoms(ct["args"][i - 1], interproc=False)
+                        ps_ = sorted(a[1] for a in local if a[0] == "param")
+                        if ps_ and cv.kind in ("Fn", "AssocFn") and not [a for a in local if a[0] == "callres" and not re.search(r"clone|to_owned|to_path_buf|into|from|as_ref|deref|borrow", a[1])] \
+                                and all(canonical_at_callers(cv, j, depth + 1) for j in ps_):
+                            continue
+                        return False
+                    return True
+                ok = bool(pidx) and all(canonical_at_callers(b, i) for i in pidx)
                 ctx.check(ok, f"{short(b.name)}/insert-key", [site(b, bb)], "a project directory is inserted without having been canonicalised: the same project reached through two routes would get two identities (and two state directories)")
     ctx.need(n >= 1, "insertion into the loaded-projects map")
     for b in f.user_bodies():
